@@ -283,7 +283,7 @@ func relations(n, thr, nv int, results map[int]nodeResult, rng *rand.Rand) drv.S
 	for v := 0; v < nv; v++ {
 		var first *tbls.Signature
 		for _, S := range subsets(n, thr, 30, rng) {
-			// every member's view of the subset is examined in turn for small subsets; otherwise the first listed member's
+			// the relations of a subset are evaluated in the view (PubKey, PublicShares) of a seeded member k
 			k := S[rng.Intn(len(S))]
 			view, ok := at(k, v)
 			rec, psig, sigok, same := false, ok, false, false
